@@ -138,10 +138,18 @@ def main():
         return [v for v in ctx.violations if v["footprint"] not in open_ids]
 
     tie_broken = bool(ctx.disagreements)
-    if (problems or tie_broken) and not unlisted() and args.tier == "quick" and hasattr(mod, "search"):
+    repr_broken = bool(ctx.repr_disagreements)
+    if repr_broken:
+        ctx.note("representation-level correspondence differs (not a verdict; the model no longer mirrors the implementation "
+                 "beyond what the property speaks about): " + "; ".join(
+                     "%s: %d of %d" % (k, t["disagreements"], t["compared"]) for k, t in ctx.ties.items()
+                     if t.get("level") == "representation" and t["disagreements"]) + "; first: " +
+                 json.dumps(dict(tie=ctx.repr_disagreements[0][0], case=ctx.repr_disagreements[0][1],
+                                 implementation=ctx.repr_disagreements[0][2], model=ctx.repr_disagreements[0][3]), default=repr)[:600])
+    if (problems or tie_broken or repr_broken) and not unlisted() and args.tier == "quick" and hasattr(mod, "search"):
         # a proof obligation or the correspondence broke: search both sides for a failing input
         ctx.escalated = True
-        ctx.note("escalated: " + "; ".join(problems + ["correspondence %s disagrees" % d[0] for d in ctx.disagreements[:3]]))
+        ctx.note("escalated: " + "; ".join(problems + ["correspondence %s disagrees" % d[0] for d in (ctx.disagreements + ctx.repr_disagreements)[:3]]))
         ctx.in_search = True
         guarded_phase(ctx, mod.search, "search")
 
